@@ -157,7 +157,32 @@ def fields : Nat → List (String × Nat × Nat)
   | 11 => [("sdt", 8, 4)]                                                                       -- EFI 32-bit system table
   | 12 => [("sdt", 8, 8)]                                                                       -- EFI 64-bit system table
   | 21 => [("addr", 8, 4)]                                                                      -- image load base address
+  | 3 => [("start", 8, 4), ("end", 12, 4)]                                                      -- module
+  | 6 => [("entry_size", 8, 4), ("entry_version", 12, 4)]                                       -- memory map
+  | 9 => [("num", 8, 4), ("entsize", 12, 4), ("shndx", 16, 4)]                                  -- ELF symbols (multiboot2.h)
+  | 8 => [("address", 8, 8), ("pitch", 16, 4), ("width", 20, 4), ("height", 24, 4), ("bpp", 28, 1)]   -- framebuffer
+  | 13 => [("major", 8, 1), ("minor", 9, 1)]                                                    -- SMBIOS
+  | 14 => [("revision", 23, 1), ("rsdt", 24, 4)]                                                -- ACPI 1.0 RSDP (8 + 15, 8 + 16)
+  | 15 => [("revision", 23, 1), ("xsdt", 32, 8), ("ext_checksum", 40, 1)]                       -- ACPI 2.0 RSDP (8 + 24, 8 + 32)
+  | 2 => [("typ", 0, 4), ("size", 4, 4)]                                                        -- boot loader name: the tag header
+  | 7 => [("mode", 8, 2), ("iseg", 10, 2), ("ioff", 12, 2), ("ilen", 14, 2)]                    -- VBE info
   | _ => []
+
+/-- VBE 3.0 VbeInfoBlock (512 bytes, at tag offset 16): offsets of signature[4], version, OemStringPtr, Capabilities,
+    VideoModePtr, TotalMemory, OemSoftwareRev, OemVendorNamePtr, OemProductNamePtr, OemProductRevPtr -/
+def vbeControl : List (Nat × Nat) :=
+  [(16 + 0, 1), (16 + 1, 1), (16 + 2, 1), (16 + 3, 1), (16 + 4, 2), (16 + 6, 4), (16 + 10, 4), (16 + 14, 4), (16 + 18, 2),
+   (16 + 20, 2), (16 + 22, 4), (16 + 26, 4), (16 + 30, 4)]
+
+/-- VBE 3.0 ModeInfoBlock (256 bytes, at tag offset 528): ModeAttributes, WinAAttributes, WinBAttributes, WinGranularity,
+    WinSize, WinASegment, WinBSegment, WinFuncPtr, BytesPerScanLine, XResolution, YResolution, XCharSize, YCharSize,
+    NumberOfPlanes, BitsPerPixel, NumberOfBanks, MemoryModel, BankSize, NumberOfImagePages, (reserved @30), Red/Green/Blue/Rsvd
+    MaskSize+FieldPosition @31..38, DirectColorModeInfo @39, PhysBasePtr @40, OffScreenMemOffset @44, OffScreenMemSize @48 -/
+def vbeMode : List (Nat × Nat) :=
+  [(528 + 0, 2), (528 + 2, 1), (528 + 3, 1), (528 + 4, 2), (528 + 6, 2), (528 + 8, 2), (528 + 10, 2), (528 + 12, 4),
+   (528 + 16, 2), (528 + 18, 2), (528 + 20, 2), (528 + 22, 1), (528 + 23, 1), (528 + 24, 1), (528 + 25, 1), (528 + 26, 1),
+   (528 + 27, 1), (528 + 28, 1), (528 + 29, 1), (528 + 31, 1), (528 + 32, 1), (528 + 33, 1), (528 + 34, 1), (528 + 35, 1),
+   (528 + 36, 1), (528 + 37, 1), (528 + 38, 1), (528 + 39, 1), (528 + 40, 4), (528 + 44, 4), (528 + 48, 2)]
 
 /-- unpadded size of the fixed-size information tags -/
 def fixedSize : Nat → Option Nat
